@@ -15,7 +15,7 @@ func run(c *core.Ctx) {
 	c.Assume("nil and empty collections are equal; an attribute with a design default that the service left unset is seen with the default; zero of a defaulted primitive (non-pointer field) may be seen as zero or default")
 	c.Assume("values the transport cannot carry are outside the alphabet: control characters in headers, RFC 6265-forbidden cookie characters")
 	c.Assume("the wire is in-memory: http.Request.Write -> http.ReadRequest -> goa muxer on an httptest recorder; the client decodes recorder.Result()")
-	for _, f := range []check.Family{families.ResultSingle(), families.ResultPair(c.Thorough()), families.ResultStatus()} {
+	for _, f := range []check.Family{families.ResultSingle(), families.ResultPair(c.Thorough()), families.ResultStatus(), families.Features()} {
 		corpus, err := check.BuildFamily(c, f)
 		if err != nil {
 			c.HarnessError("%s: %v", f.Name, err)
